@@ -135,10 +135,11 @@ pub fn random_cfg(rng: &mut impl Rng, profile: &str) -> Cfg {
         "rtt" | "sched" => false,
         _ => rng.random_range(0..100) < 30,
     };
-    let rc = *wpick(rng, &[(2, 1u32), (3, 2), (4, 3), (3, 4), (2, 5), (1, 6), (3, 7), (1, 8), (1, 9), (1, 10)]);
+    // Rc = 0 is accepted by the builder: every send_request then fails ("cannot calculate next RTO")
+    let rc = *wpick(rng, &[(1, 0u32), (2, 1), (3, 2), (4, 3), (3, 4), (2, 5), (1, 6), (3, 7), (1, 8), (1, 9), (1, 10)]);
     let rm = *wpick(rng, &[(2, 1u32), (3, 2), (2, 3), (2, 4), (1, 8), (3, 16), (1, 31), (1, 32)]);
     // keep the final deadline below ~250 s
-    let mult = (1u64 << (rc - 1)) - 1 + rm as u64;
+    let mult = (1u64 << (rc.max(1) - 1)) - 1 + rm as u64;
     let mut rto = *pick(rng, &[1_000u64, 2_500, 20_000, 100_000, 333_333, 500_000, 1_000_000, 3_000_000]);
     while mult * rto > 250_000_000 {
         rto /= 2;
